@@ -272,6 +272,9 @@ impl TypeAddress {
 
     fn ts_identifier(&self, all_names: &[&RuntypeUUID]) -> String {
         let mut has_same_name = vec![];
+        // a helper type the compiler generated for a recursive result is printed as
+        // RecursiveGenerated<n>: a declared type of exactly that name must not share the identifier
+        let mut clashes_with_generated = false;
         for name in all_names {
             match &name.ty {
                 RuntypeName::EnumItem {
@@ -286,11 +289,23 @@ impl TypeAddress {
                         has_same_name.push(type_address.clone());
                     }
                 }
-                RuntypeName::SemtypeRecursiveGenerated(_) | RuntypeName::BuiltIn(_) => {}
+                RuntypeName::SemtypeRecursiveGenerated(n) => {
+                    if format!("RecursiveGenerated{}", n) == self.name {
+                        clashes_with_generated = true;
+                    }
+                }
+                RuntypeName::BuiltIn(_) => {}
             }
         }
 
         if has_same_name.is_empty() {
+            if clashes_with_generated {
+                return format!(
+                    "{}__{}",
+                    to_valid_ts_identifier(self.file.as_str()),
+                    self.name
+                );
+            }
             // no conflict, just print name
             return self.name.clone();
         }
